@@ -1,7 +1,7 @@
 //! Shared by C10/C11: correspondence ops on the REAL arithmetic code.
 //!
 //!   f64.<add|sub|mul|div|rem|lt|le|eq> <d:a> <d:b>, f64.ofint <i>     hardware f64 vs Lean soft-float
-//!   ar.<add|sub|mul|div|rem|gt|ge|lt|le|and|or|eq|ne> <a> <b>          `VrlValueArithmetic` methods on `Value`
+//!   ar.<add|sub|mul|div|rem|gt|ge|lt|le|and|or|eq|ne|merge> <a> <b>          `VrlValueArithmetic` methods on `Value`
 //!   ar.or.err <a>                                                      `try_or` with a failing right-hand side
 //!   vrl.<add|sub|mul|div|mod|gt|ge|lt|le|eq|ne|and|or> <a> <b>         compiled program, operands `.a` / `.b`
 //!   vrl.lit.<...> <a> <b>                                              same with the operands as literals
@@ -124,6 +124,7 @@ pub fn direct(name: &str, a: Value, b: Value) -> Option<String> {
         "lt" => a.try_lt(b),
         "le" => a.try_le(b),
         "and" => a.try_and(b),
+        "merge" => a.try_merge(b),
         "or" => a.try_or(|| Ok(b.clone())),
         "eq" => Ok(Value::Boolean(a.eq_lossy(&b))),
         "ne" => Ok(Value::Boolean(!a.eq_lossy(&b))),
@@ -131,7 +132,7 @@ pub fn direct(name: &str, a: Value, b: Value) -> Option<String> {
     })))
 }
 
-const DIRECT: &[&str] = &["add", "sub", "mul", "div", "rem", "gt", "ge", "lt", "le", "and", "or", "eq", "ne"];
+const DIRECT: &[&str] = &["merge", "add", "sub", "mul", "div", "rem", "gt", "ge", "lt", "le", "and", "or", "eq", "ne"];
 pub const VRL_OPS: &[&str] = &["add", "sub", "mul", "div", "mod", "gt", "ge", "lt", "le", "eq", "ne", "and", "or"];
 
 fn vrl_expr(name: &str, l: &str, r: &str) -> Option<String> {
@@ -518,6 +519,20 @@ pub fn gen_pair(rng: &mut Rng) -> (Value, Value, &'static str) {
                 m2.insert("k".into(), y);
                 (Value::Object(m1), Value::Object(m2), "container_leaf")
             }
+        }
+        17 => {
+            // two objects with overlapping keys (for `|` / try_merge and structural ==)
+            let mk = |rng: &mut Rng| {
+                let mut m = ObjectMap::new();
+                for _ in 0..rng.below(4) {
+                    let k = *rng.pick(KEYS);
+                    m.insert(k.into(), gen_value(rng, 1, SIMPLE_KEYS));
+                }
+                Value::Object(m)
+            };
+            let a = mk(rng);
+            let b = if rng.chance(1, 4) { a.clone() } else { mk(rng) };
+            (a, b, "object_object")
         }
         _ => (gen_scalar(rng), gen_scalar(rng), "any_any"),
     }
